@@ -142,6 +142,23 @@ for g_ in ('SE3', 'RxSO3'):
                         Xg = lie(pp, g, data.clone().requires_grad_(True) * 1)
                     Yg = f(Xg)
                     env.eq(f'{tag} {nm}: a tensor that requires grad is overwritten too', raw(Xg).detach() if not env.sym else raw(Xg), ref)
+                # memory layout: the operand is a transposed (non-contiguous) view of a (2, L) batch - two sequences, the second one reversed.
+                # Same fold, same type; in place means the VIEW (and so its base) is overwritten
+                rev = items[::-1]
+                ref2 = T.stack([T.stack(seq_fold(op, g, items, left), 0), T.stack(seq_fold(op, g, rev, left), 0)], 1)        # (L, 2, D)
+                base = T.stack([T.stack(items, 0), T.stack(rev, 0)], 0)                                                       # (2, L, D)
+                for nm in ('x.cumprod', 'x.cummul', 'pp.cumprod') + (() if left else ('pp.cumops',)):
+                    Bc = base.clone(); V = lie(pp, g, Bc).transpose(0, 1)
+                    Y = spell[nm](V)
+                    env.holds(f'{tag} {nm}: non-contiguous view: result keeps the ltype', getattr(Y, 'ltype', None) is ltype(pp, g))
+                    env.eq(f'{tag} {nm}: non-contiguous view: ordered fold at every position', raw(Y), ref2)
+                    env.eq(f'{tag} {nm}: non-contiguous view: input untouched', Bc, base)
+                for nm in ('x.cumprod_', 'x.cummul_', 'pp.cumprod_') + (() if left else ('pp.cumops_',)):
+                    Bc = base.clone(); V = lie(pp, g, Bc).transpose(0, 1)
+                    Y = spell_[nm](V)
+                    env.eq(f'{tag} {nm}: non-contiguous view: the view is overwritten with the ordered fold', raw(V), ref2)
+                    env.eq(f'{tag} {nm}: non-contiguous view: so is the storage it views', Bc, ref2.transpose(0, 1))
+                    env.eq(f'{tag} {nm}: non-contiguous view: returns the result', raw(Y), ref2)
     mk()
 
 
@@ -236,7 +253,7 @@ def schedule(rng, tier):
         device = torch.device('cpu')
         def __init__(self, L): self.shape = (L,)
     for L in range(1, N + 1):
-        env_ = {'math': math, 'torch': torch, 'input': V(L), 'dim': 0, 'ops': None}
+        env_ = {'math': math, 'torch': torch, 'input': torch.zeros(L, 1), 'dim': 0, 'ops': None}     # a real tensor: the prologue may call any tensor method
         try:
             exec(pre_code, env_)                      # L, v = input.shape[dim], input ; ... whatever precedes the loop
             strides = [int(x) for x in eval(code, env_)]
